@@ -1,6 +1,7 @@
 import IwModel.Model.Format
 import IwModel.Lemmas.Format
 import IwModel.Lemmas.KvBlk
+import IwModel.Lemmas.KvNode
 import IwModel.Lemmas.KvLinks
 import IwModel.Lemmas.KvLinksRefine
 import IwModel.Lemmas.KvLinksAudit
@@ -648,5 +649,270 @@ example : (KvBlk.pairs (KvBlk.run (KvBlk.create 9)
       [.add [1] [2], .add [3] [4, 5], .add [9] [9, 9, 9], .rm 0, .upd 1 [7, 7, 7, 8, 8]])).take 4 = [(0, 0), (7, 7), (12, 5), (0, 0)] ∧
     KvBlk.recs (KvBlk.run (KvBlk.create 9) [.add [1] [2], .add [3] [4, 5], .add [9] [9, 9, 9], .rm 0, .upd 1 [7, 7, 7, 8, 8]]) =
       [([3], [7, 7, 7, 8, 8]), ([9], [9, 9, 9])] := by decide
+
+/-! ## the writer of one node record (`Model/KvNode.lean`)
+
+A database that stays within one node (at most 32 keys). `KvNode.NodeInv` is the invariant the property clause "every node non-empty,
+internally sorted and carrying the true prefix of its lowest key" asks for, stated on the model of the code that maintains the record
+(`_sblk_addkv`, `_sblk_addkv2`, `_sblk_updatekv`, `_sblk_rmkv`, `_sblk_insert_pi_mm`, `_sblk_find_pi_mm`, `_lx_sblk_cmp_key`). -/
+
+/-- **What the node invariant says**, in the words of the property: the live slot order `pi[0..pnum)` is a permutation of the used
+slots of the data block; the keys in that order are strictly descending under the database comparator; `pnum` is the number of
+records; the cached first key describes exactly the first key: `lkl = min(len, 115)`, the `lkl` cached bytes are its prefix and
+`SBLK_FULL_LKEY` is set iff the whole key is cached; the node is not empty and its block satisfies the block invariant. -/
+theorem nodeinv_spec (compound : Bool) (n : KvNode.Node) (h : KvNode.NodeInv compound n) :
+    n.pi.Perm ((List.range Gen.KVBLK_IDXNUM).filter fun i => (KvBlk.sl n.blk.slots i).len ≠ 0) ∧
+    (KvNode.keys n).Pairwise (KvNode.gtS compound) ∧
+    n.pnum = n.pi.length ∧ n.pnum = (KvBlk.recs n.blk).length ∧ 0 < n.pnum ∧ n.pnum ≤ Gen.KVBLK_IDXNUM ∧
+    n.lkl = min Gen.PREFIX_KEY_LEN_V2 (KvNode.keyAt n 0).length ∧
+    KvNode.lkLive n = (KvNode.keyAt n 0).take Gen.PREFIX_KEY_LEN_V2 ∧
+    (n.full = true ↔ (KvNode.keyAt n 0).length ≤ Gen.PREFIX_KEY_LEN_V2) ∧
+    KvBlk.BlkInv n.blk := by
+  have hperm : n.pi.Perm ((List.range Gen.KVBLK_IDXNUM).filter fun i => (KvBlk.sl n.blk.slots i).len ≠ 0) := by
+    apply (List.perm_ext_iff_of_nodup h.nodup (List.nodup_range.filter _)).2
+    intro i
+    rw [h.mem i, List.mem_filter, List.mem_range]
+    constructor
+    · intro hu; exact ⟨by have := KvNode.used_lt hu; rw [h.blk.n32] at this; exact this, by simpa using hu⟩
+    · intro hu; simpa using hu.2
+  have hne : n.pi ≠ [] := by
+    intro e0
+    have := h.pnum; have := h.pos
+    rw [e0] at *; simp at *; omega
+  obtain ⟨c1, c2, c3⟩ := h.cache _ (KvNode.head?_keys n hne)
+  refine ⟨hperm, h.sorted, h.pnum, ?_, h.pos, h.le32, c1, c2, c3, h.blk⟩
+  -- number of records = number of used slots
+  rw [h.pnum, hperm.length_eq, KvBlk.recs, List.length_filterMap_eq_countP, ← List.countP_eq_length_filter]
+  have e : n.blk.slots = (List.range n.blk.slots.length).map fun i => KvBlk.sl n.blk.slots i := by
+    have := KvBlk.map_eq_range' n.blk.slots id
+    simpa using this
+  conv => rhs; rw [e, List.countP_map, h.blk.n32]
+  apply List.countP_congr
+  intro i _
+  simp [KvBlk.recOf]
+
+/-- a database without a node satisfies the invariant -/
+theorem nodeinv_empty (compound : Bool) : KvNode.DbInv compound none := KvNode.dbInv_none compound
+
+/-- **`iwkv_put` keeps the node invariant**: a new key at any position (into the empty database, in front of the first key via
+`_sblk_addkv` + `_sblk_insert_pi_mm`, elsewhere via `_sblk_find_pi_mm` + `_sblk_addkv2`) and the overwrite of an existing key
+(`_sblk_updatekv`, the record may change its slot), for every key, compound part and value; block compaction / growth included
+(the block part is `blkinv_addkv` / `blkinv_updatev`). `hk`, `hc`: what the API checks before (`key->size > 0`, compound part in the
+`int64_t` range). -/
+theorem nodeinv_put (compound : Bool) (d : KvNode.Db) (h : KvNode.DbInv compound d) (k : Bytes) (c : Nat) (val : Bytes)
+    (hk : k ≠ []) (hc : c < 2 ^ 63) (d' : KvNode.Db) (e : KvNode.put compound d k c val = .ok d') : KvNode.DbInv compound d' :=
+  KvNode.dbInv_put h k c val hk hc d' e
+
+/-- **`iwkv_del` keeps the node invariant**: any position, including the first key (the cache is refreshed from the stored key of the
+next slot: `lkl`, bytes and `SBLK_FULL_LKEY` follow THAT key's length) and the last remaining key (the node goes). -/
+theorem nodeinv_del (compound : Bool) (d : KvNode.Db) (h : KvNode.DbInv compound d) (k : Bytes) (c : Nat) (d' : KvNode.Db)
+    (e : KvNode.del compound d k c = some d') : KvNode.DbInv compound d' := KvNode.dbInv_del h k c d' e
+
+/-- **`iwkv_cursor_set` keeps the node invariant** (cursor at any position of the node) -/
+theorem nodeinv_cursor_set (compound : Bool) (d : KvNode.Db) (h : KvNode.DbInv compound d) (pos : Nat) (val : Bytes)
+    (hpos : ∀ n, d = some n → pos < n.pnum) (d' : KvNode.Db) (e : KvNode.curSet d pos val = .ok d') : KvNode.DbInv compound d' :=
+  KvNode.dbInv_curSet h pos val hpos d' e
+
+/-- **`iwkv_cursor_del` keeps the node invariant** (cursor at any position of the node) -/
+theorem nodeinv_cursor_del (compound : Bool) (d : KvNode.Db) (h : KvNode.DbInv compound d) (pos : Nat)
+    (hpos : ∀ n, d = some n → pos < n.pnum) : KvNode.DbInv compound (KvNode.curDel d pos) := KvNode.dbInv_curDel h pos hpos
+
+/-- **Every history keeps the node invariant**: any sequence of puts, deletes, cursor sets and cursor deletes (by key) from the empty
+database, as long as it stays within one node (operations that would split the node are refused by the model and leave it as it is). -/
+theorem nodeinv_history (compound : Bool) (ops : List KvNode.Op) (hops : ∀ op ∈ ops, op.ok) :
+    KvNode.DbInv compound (KvNode.run compound none ops) := KvNode.dbInv_run (KvNode.dbInv_none compound) ops hops
+
+/-- **Key lookup through the cached prefix agrees with the full comparison** (theorems `prefix_agrees_plain` / `prefix_agrees_compound`
+of C19 applied to the node record the writer maintains): for a node satisfying the invariant the sign `_lx_sblk_cmp_key` computes
+from `lk`, `lkl`, `SBLK_FULL_LKEY` (and the stored key of `pi[0]` on a tie) is the sign of `_cmp_keys` against the whole first key. -/
+theorem node_lookup_agrees (compound : Bool) (n : KvNode.Node) (h : KvNode.NodeInv compound n) (k : Bytes) (c2 : Nat) :
+    sgn (KvNode.lxCmp compound n k c2) = sgn (Cmp.cmpKeys .plain compound (KvNode.keyAt n 0) k c2) := by
+  have hne : n.pi ≠ [] := by
+    intro e0
+    have := h.pnum; have := h.pos
+    rw [e0] at *; simp at *; omega
+  exact KvNode.lookup_agrees compound h.toCore hne k c2
+
+/-- **The binary search of `_sblk_find_pi_mm` is correct on a node satisfying the invariant**: every key left of the returned position
+sorts before the lookup key; `found` means the key at that position compares equal; `not found` means every key from that position on
+sorts after it (the position is the insertion point). -/
+theorem node_find_pi (compound : Bool) (n : KvNode.Node) (h : KvNode.NodeInv compound n) (k : Bytes) (c : Nat) :
+    KvNode.Found (fun i => KvNode.cmpOf compound k c (KvNode.keyAt n i)) n.pnum (KvNode.findPi n (KvNode.cmpOf compound k c)) :=
+  (KvNode.found_findPi h k c).1
+
+/-- **Found means present**: on a node satisfying the invariant `_sblk_find_pi_mm` reports "found" exactly when the stored form of the
+lookup key is one of the node's keys, and the position it returns holds that key (so `iwkv_get`, `iwkv_del`, cursor `EQ` and the
+overwrite branch of `iwkv_put` address the right record). -/
+theorem node_find_pi_found_iff (compound : Bool) (n : KvNode.Node) (h : KvNode.NodeInv compound n) (k : Bytes) (c : Nat)
+    (hk : k ≠ []) (hc : c < 2 ^ 63) :
+    ((KvNode.findPi n (KvNode.cmpOf compound k c)).1 = true ↔ Cmp.stored compound k c ∈ KvNode.keys n) ∧
+    ((KvNode.findPi n (KvNode.cmpOf compound k c)).1 = true →
+      KvNode.keyAt n (KvNode.findPi n (KvNode.cmpOf compound k c)).2 = Cmp.stored compound k c) :=
+  KvNode.findPi_found_iff h k c hk hc
+
+/-! ### from the node invariant to the audit -/
+
+/-- the node image the reader yields for a model node stored in block `blk` (data block `kblk`, page slot `bpos`); level and links are
+those of a single node -/
+def nodeImg (n : KvNode.Node) (blk kblk bpos : Nat) : Sblk :=
+  { flags := KvNode.flagsByte n, lvl := 0, lkl := n.lkl, pnum := n.pnum, p0 := 0, kblk,
+    piAll := n.pi ++ List.replicate (Gen.KVBLK_IDXNUM - n.pnum) 0, n := [0], bpos, lk := KvNode.lkLive n,
+    szpow := n.blk.szpow, idxsz := n.blk.idxsz, slots := KvBlk.pairs n.blk, blk,
+    recs := n.pi.map fun i => (KvNode.slotKey n.blk i, KvNode.slotVal n.blk i) }
+
+theorem usedSlots_of_used (b : KvBlk.KvBlk) (s : Sblk) (h3 : s.slots = KvBlk.pairs b) (i : Nat) (hu : (KvBlk.sl b.slots i).len ≠ 0) :
+    (((KvBlk.sl b.slots i).off, (KvBlk.sl b.slots i).len), i) ∈ usedSlots s := by
+  have hlt := KvNode.used_lt hu
+  have e : KvBlk.sl b.slots i = b.slots[i] := by
+    simp [KvBlk.sl, List.getD_eq_getElem?_getD, List.getElem?_eq_getElem hlt]
+  simp only [usedSlots, List.mem_filter]
+  refine ⟨List.mem_zipIdx_iff_getElem?.2 ?_, by simpa using hu⟩
+  simp [h3, KvBlk.pairs, List.getElem?_eq_getElem hlt, e]
+
+theorem usedSlots_length (compound : Bool) (n : KvNode.Node) (h : KvNode.Core compound n) (s : Sblk) (h3 : s.slots = KvBlk.pairs n.blk) :
+    (usedSlots s).length = n.pnum := by
+  have hnd : ((usedSlots s).map (·.2)).Nodup := by
+    have hp := (zipIdx_pairwise s.slots 0).filter (fun x => decide (x.1.2 ≠ 0))
+    have : ((s.slots.zipIdx.filter fun x => decide (x.1.2 ≠ 0)).map fun x : (Nat × Nat) × Nat => x.2).Pairwise (fun a c => a < c) :=
+      List.Pairwise.map (fun x : (Nat × Nat) × Nat => x.2) (fun _ _ hab => hab) hp
+    exact this.imp (fun hab => Nat.ne_of_lt hab)
+  have hp : ((usedSlots s).map (·.2)).Perm n.pi := by
+    apply (List.perm_ext_iff_of_nodup hnd h.nodup).2
+    intro i
+    rw [h.mem i]
+    constructor
+    · intro hi
+      obtain ⟨x, hx, e⟩ := List.mem_map.1 hi
+      rw [← e]; exact (usedSlots_mem n.blk s h3 x hx).2
+    · intro hu
+      exact List.mem_map.2 ⟨_, usedSlots_of_used n.blk s h3 i hu, rfl⟩
+  have := hp.length_eq
+  rw [List.length_map] at this
+  rw [this, h.pnum]
+
+theorem ekeyOf_wfs (flags : Nat) (st : Bytes) (h : KvNode.WFS (KvApi.isCompound flags) st) :
+    ekeyOf flags st = some (KvNode.ekey (KvApi.isCompound flags) st) := by
+  generalize hc : KvApi.isCompound flags = c at h
+  cases c with
+  | false => simp [ekeyOf, hc, KvNode.ekey]
+  | true =>
+    obtain ⟨w1, w2, _⟩ := h
+    have key : ∀ body cc, body ≠ [] → ekeyOf flags (Cmp.stored true body cc) = some (body, cc) := by
+      intro body cc hb
+      have hl : (Vnum.enc cc).length < (Vnum.enc cc ++ body).length := by
+        rw [List.length_append]
+        have : 0 < body.length := List.length_pos_iff.2 hb
+        omega
+      simp [ekeyOf, hc, Cmp.stored, Cmp.dec_stored, hl, hb]
+    calc ekeyOf flags st = ekeyOf flags (Cmp.stored true (KvNode.ekey true st).1 (KvNode.ekey true st).2) := by rw [w1]
+      _ = some ((KvNode.ekey true st).1, (KvNode.ekey true st).2) := key _ _ w2
+      _ = some (KvNode.ekey true st) := rfl
+
+/-- the order clause of the audit on a descending list of well-formed stored keys -/
+theorem keyErrs_clean (d : DbImg) (hm : KvApi.modeOf d.flags = .plain) (blk : Nat) :
+    ∀ (recs : List (Bytes × Bytes)) (prev : Option Bytes),
+      (∀ r ∈ recs, KvNode.WFS (KvApi.isCompound d.flags) r.1) →
+      (recs.map (·.1)).Pairwise (KvNode.gtS (KvApi.isCompound d.flags)) →
+      (∀ pk, prev = some pk → ∀ r ∈ recs, KvNode.gtS (KvApi.isCompound d.flags) pk r.1) →
+      (keyErrs d blk (prev.map (KvNode.ekey (KvApi.isCompound d.flags))) recs).1 = [] := by
+  intro recs
+  induction recs with
+  | nil => intro prev _ _ _; rfl
+  | cons r rest ih =>
+    intro prev hwf hs hp
+    obtain ⟨k, v⟩ := r
+    have hk := ekeyOf_wfs d.flags k (hwf (k, v) List.mem_cons_self)
+    simp only [List.map_cons, List.pairwise_cons] at hs
+    have hrest := ih (some k) (fun r hr => hwf r (List.mem_cons_of_mem _ hr)) hs.2
+      (fun pk hpk r hr => by
+        simp only [Option.some.injEq] at hpk
+        rw [← hpk]; exact hs.1 r.1 (List.mem_map.2 ⟨r, hr, rfl⟩))
+    simp only [keyErrs, hk]
+    simp only [Option.map_some] at hrest
+    rw [hrest, List.append_nil]
+    cases prev with
+    | none => rfl
+    | some pk =>
+      have hg := hp pk rfl (k, v) List.mem_cons_self
+      have : KvApi.gtE d.flags (KvNode.ekey (KvApi.isCompound d.flags) pk) (KvNode.ekey (KvApi.isCompound d.flags) k) = true := by
+        simp only [KvApi.gtE, hm, decide_eq_true_eq]
+        exact (KvNode.cmpS_flip _ pk k).1.1 hg
+      simp [this]
+
+/-- **From the node writer's invariant to the audit.** The image of a node satisfying `NodeInv` — its record fields as the model
+predicts them, its data block the model block — placed in a valid page slot passes the whole node part of the audit `checkDb` runs
+(`nodeErrs`): not empty, page slot, slot geometry (`checkSlots`, through `blkinv_checkSlots` of the block writer), cached key = prefix
+of the first key, full-key flag, all keys well-formed and strictly descending. With `nodeinv_history`: after every operation of every
+one-node history. -/
+theorem nodeinv_audit (compound : Bool) (n : KvNode.Node) (h : KvNode.NodeInv compound n) (d : DbImg)
+    (hd : KvApi.isCompound d.flags = compound) (hm : KvApi.modeOf d.flags = .plain) (blk kblk bpos : Nat)
+    (hb : 1 ≤ bpos ∧ bpos ≤ Gen.SBLK_PAGE_SBLK_NUM_V2) : nodeErrs d none [nodeImg n blk kblk bpos] = [] := by
+  subst hd
+  have hpi : (nodeImg n blk kblk bpos).pi = n.pi := by
+    show (n.pi ++ List.replicate (Gen.KVBLK_IDXNUM - n.pnum) 0).take n.pnum = n.pi
+    rw [h.pnum, List.take_left']
+    rfl
+  have hcs : checkSlots (nodeImg n blk kblk bpos) = none :=
+    blkinv_checkSlots n.blk h.blk _ rfl rfl rfl (by rw [hpi]; exact h.nodup) (usedSlots_length _ n h.toCore _ rfl)
+  have hne : n.pi ≠ [] := by
+    intro e0
+    have := h.pnum; have := h.pos
+    rw [e0] at *; simp at *; omega
+  have hkeys : (nodeImg n blk kblk bpos).recs.map (·.1) = KvNode.keys n := by
+    show (n.pi.map fun i => (KvNode.slotKey n.blk i, KvNode.slotVal n.blk i)).map (·.1) = n.pi.map (KvNode.slotKey n.blk)
+    rw [List.map_map]; rfl
+  have hself : nodeSelfErrs d (nodeImg n blk kblk bpos) = [] := by
+    have hpn : ¬ (nodeImg n blk kblk bpos).pnum = 0 := by show ¬ n.pnum = 0; have := h.pos; omega
+    have hbp : ¬ ((nodeImg n blk kblk bpos).bpos = 0 ∨ (nodeImg n blk kblk bpos).bpos > Gen.SBLK_PAGE_SBLK_NUM_V2) := by
+      show ¬ (bpos = 0 ∨ bpos > Gen.SBLK_PAGE_SBLK_NUM_V2); omega
+    obtain ⟨c1, c2, c3⟩ := h.cache _ (KvNode.head?_keys n hne)
+    have hhead : (nodeImg n blk kblk bpos).recs.head? = some (KvNode.keyAt n 0, KvNode.slotVal n.blk (KvNode.piAt n 0)) := by
+      show (n.pi.map fun i => (KvNode.slotKey n.blk i, KvNode.slotVal n.blk i)).head? = _
+      cases hq : n.pi with
+      | nil => exact absurd hq hne
+      | cons x xs => simp [KvNode.keyAt, KvNode.piAt, hq]
+    have hlk : (nodeImg n blk kblk bpos).lk = (KvNode.keyAt n 0).take Gen.PREFIX_KEY_LEN_V2 := c2
+    have hfl : ((nodeImg n blk kblk bpos).flags % 2 = 1) = ((KvNode.keyAt n 0).length ≤ Gen.PREFIX_KEY_LEN_V2) := by
+      apply propext
+      show KvNode.flagsByte n % 2 = 1 ↔ _
+      rw [← c3]
+      cases hq : n.full <;> simp [KvNode.flagsByte, Gen.SBLK_FULL_LKEY, hq]
+    simp only [nodeSelfErrs, hpn, hbp, hcs, hhead, if_false, List.append_nil, List.nil_append]
+    simp [hlk, hfl]
+  have hord := keyErrs_clean d hm blk (nodeImg n blk kblk bpos).recs none
+    (fun r hr => h.wf r.1 (by rw [← hkeys]; exact List.mem_map.2 ⟨r, hr, rfl⟩))
+    (by rw [hkeys]; exact h.sorted) (fun pk hpk => absurd hpk (by simp))
+  simp only [Option.map_none] at hord
+  simp only [nodeErrs, hself, List.nil_append, List.append_nil]
+  exact hord
+
+/-- **After every one-node history the node in the file image passes the node part of the audit** (the model node of
+`nodeinv_history`, compared field by field with the real file after every operation by `drv kvnode`). -/
+theorem history_node_audit (compound : Bool) (ops : List KvNode.Op) (hops : ∀ op ∈ ops, op.ok) (n : KvNode.Node)
+    (hn : KvNode.run compound none ops = some n) (d : DbImg) (hd : KvApi.isCompound d.flags = compound)
+    (hm : KvApi.modeOf d.flags = .plain) (blk kblk bpos : Nat) (hb : 1 ≤ bpos ∧ bpos ≤ Gen.SBLK_PAGE_SBLK_NUM_V2) :
+    nodeErrs d none [nodeImg n blk kblk bpos] = [] :=
+  nodeinv_audit compound n (nodeinv_history compound ops hops n hn) d hd hm blk kblk bpos hb
+
+/-- non-vacuity: a concrete one-node history on the model (plain keys). Three puts (the second in front of the first key, the third in
+the middle), overwrite of the first key, delete of the first key: slot order, `pnum`, `lkl`, cached bytes, flag and key order as the C
+code leaves them. -/
+example : (KvNode.run false none [.put [5] 0 [1], .put [9] 0 [2], .put [7] 0 [3], .cset [9] 0 [4, 4], .del [9] 0]).map
+      (fun n => (n.pi, n.pnum, n.lkl, KvNode.lkLive n, n.full)) = some ([2, 0], 2, 1, [7], true) ∧
+    (KvNode.run false none [.put [5] 0 [1], .put [9] 0 [2], .put [7] 0 [3], .cset [9] 0 [4, 4], .del [9] 0]).map KvNode.keys =
+      some [[7], [5]] := by decide
+
+set_option maxRecDepth 100000 in
+/-- non-vacuity, the case of seeded change S4-C19: the first key (short) goes and the next key is longer than the cache (120 bytes):
+`lkl` becomes 115 and `SBLK_FULL_LKEY` is cleared. -/
+example : (KvNode.run false none [.put (List.replicate 120 5) 0 [1], .put [9] 0 [2], .del [9] 0]).map
+      (fun n => (n.pi, n.pnum, n.lkl, n.full, (KvNode.lkLive n).length)) = some ([0], 1, 115, false, 115) := by decide
+
+/-- non-vacuity: the preconditions of `nodeinv_history` hold for a history with compound keys (same body, different compound parts) -/
+example : KvNode.DbInv true (KvNode.run true none [.put [5] 300 [1], .put [5] 200 [2], .del [5] 300]) :=
+  nodeinv_history true _ (by
+    intro op hop
+    simp only [List.mem_cons, List.not_mem_nil, or_false] at hop
+    rcases hop with e | e | e <;> subst e <;> simp [KvNode.Op.ok])
 
 end IwModel.C06
